@@ -35,12 +35,35 @@ def programs(tier, rng):
     return out, total
 
 
-def observe_and_judge(rep, progs, optsets, family, tag, rng, variant_share=0.25):
+def chain_programs(tier, rng, n_nested=3000, n_other=1500):
+    """deep nesting: every scope tree that is one chain module > s2 > s3 > s4 (all kinds, one name); quick takes a seeded sample that favours the
+    chains with a class directly inside a class (which no 3-scope program contains)"""
+    chain, _ = tlc.cached_export('Rename', 'Export_Rename_chain4.cfg', timeout=3600)
+    total = len(chain)
+    items = [('c4-%d' % k, p) for k, p in enumerate(chain)]
+    if tier != 'quick':
+        return items, total
+    nested = [it for it in items if 'cc' in ''.join(it[1]['kind'])]
+    other = [it for it in items if 'cc' not in ''.join(it[1]['kind'])]
+    rng.shuffle(nested)
+    rng.shuffle(other)
+    return sorted(nested[:n_nested] + other[:n_other], key=lambda it: int(it[0][3:])), total
+
+
+STORE_SPELLINGS = ['ann', 'for', 'with', 'tuple', 'import']
+
+
+def observe_and_judge(rep, progs, optsets, family, tag, rng, variant_share=0.25, store_share=0.15):
     """optsets: list of (name, opts dict for scopegen.observe)"""
     jobs = []
     for pid, p in progs:
         for on, o in optsets:
             jobs.append({'id': '%s|%s|v0' % (pid, on), 'p': p, 'variant': 0, 'opts': o})
+        if rng.random() < store_share and any('store' in hs for u in p['uses'] for hs in u.values()):
+            # the same program with its stores spelled as another binding statement (annotated assignment, for, with, tuple assignment, import)
+            on, o = optsets[rng.randrange(len(optsets))]
+            for sp in STORE_SPELLINGS:
+                jobs.append({'id': '%s|%s|s-%s' % (pid, on, sp), 'p': p, 'variant': 0, 'opts': o, 'store': sp})
         if rng.random() < variant_share:
             on, o = optsets[0]
             jobs.append({'id': '%s|%s|v1' % (pid, on), 'p': p, 'variant': 1, 'opts': o})
@@ -51,6 +74,11 @@ def observe_and_judge(rep, progs, optsets, family, tag, rng, variant_share=0.25)
             jobs.append({'id': '%s|%s|vABi' % (pid, on), 'p': p, 'variant': 0, 'opts': o, 'names': {'x': 'A', 'y': 'B'}, 'imports': True})
             jobs.append({'id': '%s|%s|vi' % (pid, on), 'p': p, 'variant': 0, 'opts': o, 'imports': True})
             jobs.append({'id': '%s|%s|vABh' % (pid, on), 'p': p, 'variant': 0, 'opts': o, 'names': {'x': 'A', 'y': 'B'}, 'heavy': ['y']})
+    return judge_jobs(rep, jobs, family, tag)
+
+
+def judge_jobs(rep, jobs, family, tag):
+    """run scopegen.observe on the jobs and let Trace_Rename.tla judge the records; violations of the clause families given are reported"""
     obs = local.pmap(scopegen.observe, jobs, chunksize=64)
     rep.evaluations += len(obs)
     skipped = {}
